@@ -671,4 +671,30 @@ theorem filter_isNl_spaces (l : Text) (h : ∀ x ∈ l, x = ' ') : l.filter isNl
   subst this
   simp [isNl] at hn
 
+/-! ### line parts -/
+
+theorem takeWhile_eq_take_length {α : Type} (p : α → Bool) (l : List α) :
+    l.takeWhile p = l.take (l.takeWhile p).length := by
+  induction l with
+  | nil => simp
+  | cons x xs ih =>
+    rw [List.takeWhile_cons]
+    split
+    · simp only [List.length_cons, List.take_succ_cons]; rw [← ih]
+    · simp
+
+theorem lineBefore_eq_drop (b : Buf) :
+    lineBefore b = b.before.drop (b.before.length - (lineBefore b).length) := by
+  unfold lineBefore
+  rw [List.length_reverse]
+  conv => lhs; rw [takeWhile_eq_take_length]
+  generalize (List.takeWhile notNl b.before.reverse).length = k
+  rw [List.reverse_take]
+  simp
+
+theorem lineBefore_le (b : Buf) : (lineBefore b).length ≤ b.before.length := by
+  unfold lineBefore
+  rw [List.length_reverse]
+  exact Nat.le_trans (length_takeWhile_le' _ _) (by simp)
+
 end Ptk.C09
